@@ -45,7 +45,7 @@ out = os.path.join("/verif/seeded", sid)
 os.makedirs(out, exist_ok=True)
 shutil.copy(os.path.join(mdir, "patch.diff"), out)
 shutil.copy(os.path.join(mdir, "demo_test.go"), out)
-readme = open(os.path.join(mdir, "README.md")).read() if os.path.exists(os.path.join(mdir, "README.md")) else ""
+readme = next((open(os.path.join(mdir, f)).read() for f in ("README.md", "NOTES.md") if os.path.exists(os.path.join(mdir, f))), "")
 json.dump({"id": sid, "property": prop, "needs": readme[:1800], "demo": {"package_dir": pkgdir, "run": runpat},
            "confirmed": res, "ran": ["git apply patch.diff", "go build ./...", "go test " + " ".join(pkgs), "demo with / without the change"]},
           open(os.path.join(out, "meta.json"), "w"), indent=1)
